@@ -35,7 +35,7 @@ MANIFEST = dict(
 
 KEYS = ['a', 'b', 'c', 'x', 'y', 'options', 'std']
 FLAGS = ['omit_float_serialization_support', 'enable_serialization_asserts', 'enable_override_variable_array_capacity']
-LANGS = ['c', 'cpp', 'py']
+LANGS = ['c', 'cpp', 'py', 'js', 'html']   # js and html configure no `options`/`defaults` at all
 
 
 # ---- value helpers: V (harness JSON) <-> canonical python <-> driver text ---------------------------------------------
@@ -359,7 +359,7 @@ def permute_single_builder(rng, ops):
 def gen_cli_cases(rng, count: int):
     cases = []
     for te_cli in ('any', 'big'):       # an explicit command-line value against a conflicting file value
-        cases.append({'kind': 'cli', 'argv': ['--target-language', 'c', '--target-endianness', te_cli], 'lang': 'c',
+        cases.append({'kind': 'cli', 'argv': ['--target-language', 'c', '--experimental-languages', '--target-endianness', te_cli], 'lang': 'c',
                       'files': [N([('nunavut.lang.c', N([('options', N([('target_endianness', L('little'))]))]))])]})
     while len(cases) < count:
         lang = rng.choice(LANGS)
@@ -448,7 +448,10 @@ def run_model(exe: str, codec: Codec, lines: typing.List[str]):
                     bi = int(toks[i + 1])
                     sec, j = codec.dec_tokens(toks, i + 2)
                     opt, j = codec.dec_tokens(toks, j)
-                    creates.append({'i': bi, 'sections': sec, 'options': opt})
+                    allo, j = codec.dec_tokens(toks, j)
+                    if isinstance(allo, dict):
+                        allo = {k[len('nunavut.lang.'):]: v for k, v in allo.items()}
+                    creates.append({'i': bi, 'sections': sec, 'options': opt, 'all_options': allo})
                     i = j + 1
                 final, ctxs = [], []
                 i += 1
@@ -495,6 +498,43 @@ def touched_after_create(ops) -> typing.Dict[int, bool]:
         if o[0] == 'create':
             created.add(i)
     return reused
+
+
+def non_target_options(ob):
+    return {n: canon(v) for n, v in ob['all_options'].items() if n != ob['language']}
+
+
+def observation_defects(ob):
+    """oracles on one full observation of a context (independent of the model):
+    - provenance: every option a language reports is configured for THAT language (its own `options` map or one of its `defaults`
+      groups) or is the one option its validator is documented to force (py: enable_serialization_asserts);
+    - `options` / `ln.<lang>.options` seen by a probe template are the API's get_options() of the same languages."""
+    bad = []
+    secs = canon(ob['sections'])
+    for n, v in ob['all_options'].items():
+        sec = secs.get('nunavut.lang.' + n, {})
+        allowed = set(sec['options']) if isinstance(sec.get('options'), dict) else set()
+        if isinstance(sec.get('defaults'), dict):
+            for g in sec['defaults'].values():
+                if isinstance(g, dict):
+                    allowed |= set(g)
+        if n == 'py':
+            allowed.add('enable_serialization_asserts')
+        extra = sorted(set(canon(v)) - allowed)
+        if extra:
+            bad.append(('language %s reports options %s that nothing configured for it' % (n, extra), sorted(allowed), sorted(canon(v))))
+    if ob.get('template_expected') is not None and ob['template'] != ob['template_expected']:
+        bad.append(('a probe template sees other options than the API reports', ob['template_expected'], ob['template']))
+    return bad
+
+
+def canon_obs(ob):
+    return {'all_options': {n: canon(v) for n, v in ob['all_options'].items()}, 'options': canon(ob['options']),
+            'template': ob.get('template'), 'sections': canon(ob['sections']), 'language': ob.get('language')}
+
+
+def strip_obs(ob):
+    return {k: ob.get(k) for k in ('all_options', 'options', 'template', 'sections', 'language')}
 
 
 def explicit_overrides_win(ops, creates):
@@ -673,6 +713,15 @@ def main(chk: core.Check, replay: typing.Optional[str] = None) -> int:
                                            at_create, canon(final_v)))
             for what, exp, got in explicit_overrides_win(r['ops'], o['creates']):
                 bad_oracle.append((r, what, exp, got))
+            ok_obs = [c for c in o['creates'] if c['options'] != 'ERR']
+            for ci, ob in enumerate(ok_obs):
+                for what, exp, got in observation_defects(ob):
+                    bad_oracle.append((r, what, exp, got))
+                fin = o['ctx_obs_final'][ci]
+                if strip_obs(fin) != strip_obs(ob) and not (reuse_live and chk.is_known('F-CFG-REUSE') and reused.get(ob['i'], False)):
+                    d = [k for k in ('all_options', 'options', 'template', 'sections') if fin.get(k) != ob.get(k)]
+                    bad_oracle.append((r, 'context %d reports other %s at the end of the process than when it was created' % (ci, d),
+                                       {k: ob.get(k) for k in d if k != 'sections'}, {k: fin.get(k) for k in d if k != 'sections'}))
             if 'perm_of' in r:
                 base_case, base_out = by_id[r['perm_of']]
                 if 'err' not in base_out and canon(base_out['final'][0]) != canon(o['final'][0]):
@@ -693,6 +742,10 @@ def main(chk: core.Check, replay: typing.Optional[str] = None) -> int:
                         if mc['options'] != oopt:
                             bad_model.append((r, 'Config.language_init vs Language.get_options', mc['options'], oopt))
                             break
+                        if oopt != 'ERR' and mc['all_options'] != non_target_options(oc):
+                            bad_model.append((r, 'Config.observe_ctx vs get_options() of every non-target language of the context',
+                                              mc['all_options'], non_target_options(oc)))
+                            break
                     else:
                         if m['final'] != [canon(x) for x in o['final']]:
                             bad_model.append((r, 'Config.prun vs builders: final configuration of every builder', m['final'],
@@ -703,6 +756,8 @@ def main(chk: core.Check, replay: typing.Optional[str] = None) -> int:
         else:  # cli
             stats['oracle_vs_impl_compared'] += 1
             if o['options'] != 'ERR':
+                for what, exp, got in observation_defects(o):
+                    bad_oracle.append((r, what, exp, got))
                 # oracle: file values for the three flags survive unless the flag is given; given flags are True
                 exp_sec = builtin_c
                 for f in r['files']:
@@ -738,9 +793,39 @@ def main(chk: core.Check, replay: typing.Optional[str] = None) -> int:
                 oopt = 'ERR' if o['options'] == 'ERR' else canon(o['options'])
                 if mc['options'] != oopt:
                     bad_model.append((r, 'translated cli_ops + Config.bcreate_st vs _create_language_context: options', mc['options'], oopt))
+                elif oopt != 'ERR' and mc.get('all_options') != non_target_options(o):
+                    bad_model.append((r, 'Config.observe_ctx vs get_options() of every non-target language (CLI context)',
+                                      mc.get('all_options'), non_target_options(o)))
                 elif 'sections' in o and mc['sections'] != canon(o['sections']):
                     bad_model.append((r, 'translated cli_ops + Config.bcreate_st vs _create_language_context: sections', mc['sections'],
                                       canon(o['sections'])))
+
+    # fresh-process oracle: a context reports what a brand-new process given only its own builder's calls reports
+    n_fresh = 6 if quick else 36
+    picks = []
+    for r, o in zip(all_reqs, impl):
+        if r['kind'] == 'proc' and 'err' not in o and 'perm_of' not in r and sum(1 for x in r['ops'] if x[0] == 'new') > 1:
+            seen = 0
+            for k, op in enumerate(r['ops']):
+                if op[0] == 'create':
+                    ob = o['creates'][seen]
+                    seen += 1
+                    if ob['options'] != 'ERR':
+                        own = [['new']] + [[x[0], 0] + list(x[2:]) for x in r['ops'][:k + 1] if x[0] != 'new' and x[1] == op[1]]
+                        picks.append((r, ob, own))
+    rng.shuffle(picks)
+    picks = picks[:n_fresh]
+    if picks:
+        from concurrent.futures import ThreadPoolExecutor
+        with ThreadPoolExecutor(max_workers=6) as ex:
+            fresh = list(ex.map(lambda p: run_impl([{'kind': 'proc', 'ops': p[2]}])[0], picks))
+        for (r, ob, own), fo in zip(picks, fresh):
+            stats['fresh_process_comparisons'] = stats.get('fresh_process_comparisons', 0) + 1
+            fob = [c for c in fo.get('creates', []) if c['options'] != 'ERR'][-1:] if 'err' not in fo else []
+            if not fob or canon_obs(fob[0]) != canon_obs(ob):
+                bad_oracle.append(({'kind': 'proc', 'ops': r['ops'], 'isolated': own},
+                                   'a context reports something else than a fresh process given only its own builder\'s calls',
+                                   canon_obs(fob[0]) if fob else fo, canon_obs(ob)))
 
     stats.update({'rule_' + k: v for k, v in sorted(events.items())})
     chk.coverage.update({
